@@ -1,6 +1,6 @@
 (* Model of arena purge scheduling, with time as an input.  No proofs in this file.
 
-   C sources modelled (src/arena.c, as repaired by 9676b42):
+   C sources modelled (src/arena.c, as repaired by 9676b42 and c59c73f):
      mi_arena_purge_delay, mi_arena_purge, mi_arena_schedule_purge, mi_arena_purge_range,
      mi_arena_try_purge, mi_arenas_try_purge, _mi_arenas_collect, the MI_MEM_ARENA branch of
      _mi_arena_free (decommit accounting, schedule, release of the in-use bits, trailing
@@ -153,16 +153,18 @@ Definition arena_try_purge (o : os) (a : arena) (now : Z) (force : bool) : os * 
       let a2 := if negb full_purge && (a_expire a1 =? 0)%Z then set_aexpire a1 (now + arena_purge_delay)%Z else a1 in
       (o1, a2, any_purged).
 
-(* the loop over the arenas in mi_arenas_try_purge: (os, arenas, all_visited) *)
-Fixpoint arenas_loop (o : os) (l : list arena) (now : Z) (force : bool) (max_purge_count : N) : os * list arena * bool :=
+(* the loop over the arenas in mi_arenas_try_purge: (os, arenas, all_visited, any_pending);
+   any_pending (repair c59c73f): some visited arena still has purge_expire <> 0 after its visit *)
+Fixpoint arenas_loop (o : os) (l : list arena) (now : Z) (force : bool) (max_purge_count : N) : os * list arena * bool * bool :=
   match l with
-  | [] => (o, [], true)
+  | [] => (o, [], true, false)
   | a :: rest =>
     let '(o1, a1, purged) := arena_try_purge o a now force in
+    let pending := negb (a_expire a1 =? 0)%Z in
     if purged then
-      if max_purge_count <=? 1 then (o1, a1 :: rest, false)
-      else let '(o2, rest', v) := arenas_loop o1 rest now force (max_purge_count - 1) in (o2, a1 :: rest', v)
-    else let '(o2, rest', v) := arenas_loop o1 rest now force max_purge_count in (o2, a1 :: rest', v)
+      if max_purge_count <=? 1 then (o1, a1 :: rest, false, pending)
+      else let '(o2, rest', v, p) := arenas_loop o1 rest now force (max_purge_count - 1) in (o2, a1 :: rest', v, pending || p)
+    else let '(o2, rest', v, p) := arenas_loop o1 rest now force max_purge_count in (o2, a1 :: rest', v, pending || p)
   end.
 
 (* mi_arenas_try_purge *)
@@ -174,8 +176,10 @@ Definition arenas_try_purge (o : os) (g : Z) (l : list arena) (now : Z) (force v
     | [] => (o, g, l)
     | _ =>
       let g1 := (now + arena_purge_delay)%Z in                                   (* increase global expire *)
-      let '(o1, l1, all_visited) := arenas_loop o l now force (if visit_all then N.of_nat (length l) else 2) in
-      (o1, if all_visited then 0%Z else g1, l1)                                  (* reset global expire *)
+      let '(o1, l1, all_visited, any_pending) :=
+        arenas_loop o l now force (if visit_all then N.of_nat (length l) else 2) in
+      (* all arenas were visited and none has a purge pending: reset global expire *)
+      (o1, if all_visited && negb any_pending then 0%Z else g1, l1)
     end.
 
 (* _mi_arenas_collect *)
